@@ -93,3 +93,7 @@ def register_all(reg):
     reg("C27", "thrx", "fault_enumeration", "fault enumeration (every removed-agent subset) on the real threaded runtime under a cooperative scheduler, with single schedule / random-answer deviations in the repair window",
         "For every small resilient deployment and every subset of <=k removed agents the real replication -> removal event -> repair pipeline is executed under the fair default schedule (deep cases: plus every single schedule deviation and every single random-answer deviation inside the repair window); one virtual second after the orchestrator reports the repair, directory and agents must agree that every computation runs on exactly one surviving agent that held its replica.",
         THRX_NOTE + " One removal event per run; ample capacities; A-DSA (thorough also MGM) as non-terminating algorithm.", "DESIGN.md 3 C27")
+
+    reg("C02", "netx", "model_checking", "explicit-state search of the real SyncBB computations over a virtual FIFO network (all start orders and delivery interleavings, state caching) x bounded-exhaustive instance family",
+        "For every binary DCOP of the small-scope family the real ordered graph is built and every reachable state of the real SyncBB computations is visited; every maximal path must end with all computations finished and the held values forming a brute-force-optimal assignment.",
+        NETX_NOTE, "DESIGN.md 3 C02")
